@@ -830,10 +830,88 @@ func c13GenPlan(R *core.Rand, snap *tree.Tree) *c13Plan {
 	return p
 }
 
+// c13WildUtime: one call with several wildcard matches and a requested time
+// stamp (and owner): every copied entry and every directory the call created
+// above the target carries them, whichever match caused its creation.
+func c13WildUtime(c *core.Ctx, r *core.Result, R *core.Rand) *core.Result {
+	src, dst := filepath.Join(c.Dir, "src"), filepath.Join(c.Dir, "dst")
+	t := &tree.Tree{}
+	add := func(p string, typ byte, data string) {
+		t.Entries = append(t.Entries, tree.Entry{Path: p, Type: typ, Perm: map[byte]uint32{tree.Dir: 0755}[typ] | 0644, Mtime: 1_100_000_000_000_000_000 + int64(len(t.Entries)), Data: []byte(data)})
+	}
+	add("in", tree.Dir, "")
+	names := []string{"a-dir", "b-file", "c-dir", "d-file", "e-dir"}
+	n := R.Range(2, 5)
+	for _, nm := range names[:n] {
+		if strings.HasSuffix(nm, "-dir") {
+			add("in/"+nm, tree.Dir, "")
+			add("in/"+nm+"/sub-"+nm, tree.Dir, "")
+			add("in/"+nm+"/sub-"+nm+"/x", tree.File, nm)
+			add("in/"+nm+"/y-"+nm, tree.File, nm)
+		} else {
+			add("in/"+nm, tree.File, nm)
+		}
+	}
+	os.Mkdir(src, 0755)
+	os.Mkdir(dst, 0755)
+	if err := tree.Materialise(src, t); err != nil {
+		r.Inconclusive = "materialise: " + err.Error()
+		return r
+	}
+	tm := time.Unix(int64(1_200_000_000+R.Intn(100_000_000)), int64(R.Intn(1_000_000_000)))
+	// (without CopyDirContents the first directory match becomes the not yet
+	// existing destination itself and later matches are written into that
+	// copied entry: the statement does not say whose time stamp it keeps)
+	contents := true
+	dstArg := core.Pick(R, []string{"new/out", "new", "new/out/deeper", "/new/out/"})
+	ci := fs.CopyInfo{AllowWildcards: true, CopyDirContents: contents, Utime: &tm}
+	opts := []fs.Opt{fs.WithCopyInfo(ci)}
+	var own []int
+	if R.P(1, 2) {
+		own = []int{1234, 4321}
+		opts = append(opts, fs.WithChown(own[0], own[1]))
+	}
+	pat := core.Pick(R, []string{"in/*", "in/?-*", "in/[a-e]*"})
+	r.Sample = map[string]any{"variant": "wildcard+utime", "tree": t.Lines(), "src": pat, "dst": dstArg, "contents": contents, "utime": tm.UTC().Format(time.RFC3339Nano), "chown": own}
+	r.FP = fmt.Sprintf("wild-utime|%d|%s|%s|%v|%v", n, pat, dstArg, contents, own)
+	r.AddSet("variants", "wildcard+utime")
+	r.Nontrivial = true
+	if err := fs.Copy(context.Background(), src, pat, dst, dstArg, opts...); err != nil {
+		r.ViolateD("copy-failed", r.Sample, "wildcard copy with a requested time stamp failed: %v", err)
+		return r
+	}
+	r.Count("copies", 1)
+	r.Count("wildcard_copies_with_utime", 1)
+	checked := 0
+	filepath.Walk(dst, func(p string, fi os.FileInfo, err error) error {
+		if err != nil || p == dst {
+			return nil
+		}
+		rel, _ := filepath.Rel(dst, p)
+		sec, nsec, e := lstatPair(p)
+		if e != nil {
+			return nil
+		}
+		checked++
+		if sec != tm.Unix() || nsec != int64(tm.Nanosecond()) {
+			r.ViolateD("utime-not-applied", r.Sample, "%q (%s) carries mtime %s, requested %s (src %q, %d matches, dst %q)", "/"+rel, fi.Mode().Type(), time.Unix(sec, nsec).UTC().Format(time.RFC3339Nano), tm.UTC().Format(time.RFC3339Nano), pat, n, dstArg)
+		}
+		if st, ok := fi.Sys().(*syscall.Stat_t); ok && own != nil && (int(st.Uid) != own[0] || int(st.Gid) != own[1]) {
+			r.ViolateD("chown-not-applied", r.Sample, "%q is owned by %d:%d, requested %d:%d", "/"+rel, st.Uid, st.Gid, own[0], own[1])
+		}
+		return nil
+	})
+	r.Count("wildcard_utime_entries_checked", int64(checked))
+	return r
+}
+
 func c13Run(c *core.Ctx) *core.Result {
 	r := &core.Result{}
 	if !needRoot(r) {
 		return r
+	}
+	if wr := core.NewRand(core.Mix(c.Seed, "C13-wild-utime", c.Index)); wr.P(1, 20) {
+		return c13WildUtime(c, r, wr)
 	}
 	R := c.R
 	o := tree.DefaultOpt()
